@@ -25,6 +25,9 @@ class FakeWriter:
         self._socket = socket
 
     def close(self):
+        if self._socket is not None:
+            # Deregister from the server now instead of whenever the socket is garbage collected
+            self._socket.close()
         self._socket = None
 
     async def wait_closed(self):
